@@ -365,8 +365,9 @@ def check(ctx):
     ctx.rule("R7", "every table item is mapped to a proven shape (exhaustive over all items)")
     ctx.rule("R8", "write-through: the structures' set_value / async_set_value hand (pos, length, newvalue) unchanged to the device-write callback on every path (no write is dropped or altered between the accessor and the connection)")
     ctx.rule("R9", "identical device writes on both paths: the blocking and the awaitable set-value callback, interpreted on a model connection with pairwise distinct pack type / config version / log version, each emit exactly one datagram, byte-identical to each other and to the command builder called with every field by parameter name")
-    from ..writemodel import device_writes
+    from ..writemodel import device_writes, overlapping_writes
     device_writes(ctx, repo, "R9")
+    overlapping_writes(ctx, repo, "R9")
     ctx.rule("R11", "temperature items read back what was written: for every 16-bit word, both units and both writers, writing the value the item presents for that word hands the same word to the device write (C14's exhaustive float read-back on the reader's / writers' own float programs, borrowed)")
     from .c14 import exact_read_back
     exact_read_back(ctx.borrowed("R11", "C14"), repo, "R6")
